@@ -354,7 +354,7 @@ func runXlate(res *vh.Result, prop string) {
 		"not generated (outside the supported IE set): IPv6, CHOOSE F-TEID, SDF TTC/SPI/FL, outer header creation forms without a port",
 		"URR measurement period attribute: presence compared, value not (DESIGN.md §4 C03); measurement information compared numerically",
 	}
-	ncases := vh.Tiered(300, 6000)
+	ncases := vh.Tiered(300, 60000)
 	per := 50
 	res.Cases(ncases, func(ci int, rng *vh.Rng) {
 		wg := &sync.WaitGroup{}
